@@ -171,6 +171,18 @@ def crystals(rng):
     bcc = _cell(["Na", "Cl", "Na", "Cl"], [[0, 0, 0], [.5, .5, 0], [.5, .5, .5], [0, 0, .5]], np.diag([a, a, a]))
     out["ab_I"] = dict(unitcell=bcc, supercell_matrix=np.diag([1, 1, 2]), primitive_matrix="I", nac=None)
     # non-diagonal supercell (det 2) of the two-atom polar cell
+    # --- MORE atoms in the primitive cell than lattice points in the supercell (p2s = [0, N, 2N, ...] then has
+    # entries below num_patom), and a supercell that IS the primitive cell (N = 1) ---
+    L5 = np.array([[4.1, 0.3, 0.2], [0.4, 4.6, 0.1], [0.3, 0.5, 5.2]]) + 0.04 * rng.random((3, 3))
+    low5 = _cell(["Si", "O", "Al", "O", "Si"],
+                 [[0.02, 0.03, 0.01], [.27, .48, .22], [.52, .21, .71], [.74, .77, .43], [.13, .66, .84]], L5,
+                 masses=[28.0, 16.0, 27.0, 16.5, 28.5])
+    out["low5_211"] = dict(unitcell=low5, supercell_matrix=np.diag([2, 1, 1]), primitive_matrix=None, nac=None)
+    out["low5_111"] = dict(unitcell=low5, supercell_matrix=np.eye(3, dtype=int), primitive_matrix=None, nac=None)
+    low7 = _cell(["Si", "O", "Al", "O", "Si", "N", "O"],
+                 [[0.02, 0.03, 0.01], [.27, .48, .22], [.52, .21, .71], [.74, .77, .43], [.13, .66, .84], [.61, .58, .09],
+                  [.38, .12, .47]], L5 * 1.15, masses=[28.0, 16.0, 27.0, 16.5, 28.5, 14.0, 17.0])
+    out["low7_113"] = dict(unitcell=low7, supercell_matrix=np.diag([1, 1, 3]), primitive_matrix=None, nac=None)
     out["tetAB_nd"] = dict(unitcell=tet, supercell_matrix=[[1, 1, 0], [-1, 1, 0], [0, 0, 1]], primitive_matrix=None,
                            nac=dict(born=bt, dielectric=np.diag([3.1, 3.1, 2.7]), factor=14.4))
     return out
@@ -217,6 +229,9 @@ QUICK_CONFIGS = [
     ("nacl_F2", True, False, None), ("nacl_F2", True, True, None),
     ("naclg_F", True, False, "gonze"), ("ab_I", False, False, None), ("ab_I", True, True, None),
     ("tetAB_nd", True, True, None),
+    ("low5_211", True, False, None), ("low5_211", False, True, None),
+    ("low7_113", True, False, None), ("low7_113", True, True, None),
+    ("low5_111", True, False, None), ("low5_111", False, True, None),
 ]
 
 
@@ -532,7 +547,7 @@ def select_cases(calls, rng, per_kernel=6, per_kernel_random=3):
         # p2s map, vanishing K with direction, flag values) gets its share: round-robin over the classes
         def klass(c):
             f = index_map_facts(c)
-            return (f["gllimit"], f["noncontig"], f["p2sprefix"],
+            return (f["gllimit"], f["noncontig"], f["p2sprefix"], shape_class(c),
                     tuple(scalar_sig(x) for x in c["args"] if not isinstance(x, np.ndarray) and scalar_sig(x) != "f"))
 
         byc = {}
@@ -564,6 +579,31 @@ INDEX_MAPS = {
     "perm_trans_symmetrize_compact_fc": (2, 3),
     "transpose_compact_fc": (2, 3),
 }
+
+
+# kernels that take both the number of primitive atoms and of supercell atoms: how to read (num_patom, num_satom)
+SHAPES = {
+    "transform_dynmat_to_fc": lambda a: (a[4].shape[1], a[4].shape[0]),
+    "dynamical_matrices_with_dd_openmp_over_qpoints": lambda a: (len(a[8]), len(a[7])),
+    "derivative_dynmat": lambda a: (len(a[9]), len(a[8])),
+    "perm_trans_symmetrize_compact_fc": lambda a: (a[0].shape[0], a[0].shape[1]),
+    "transpose_compact_fc": lambda a: (a[0].shape[0], a[0].shape[1]),
+    "gsv_set_smallest_vectors_sparse": lambda a: (len(a[3]), len(a[2])),
+    "gsv_set_smallest_vectors_dense": lambda a: (len(a[3]), len(a[2])),
+}
+
+
+def shape_class(call):
+    """Relation of the number of primitive atoms to the number N of lattice points of the supercell:
+    'lt' (num_patom < N), 'eq', 'gt' (num_patom > N >= 2), 'one' (N = 1); 'na' for other kernels."""
+    f = SHAPES.get(call["kernel"])
+    if f is None:
+        return "na"
+    npa, nsa = f(call["args"])
+    n = nsa // max(npa, 1)
+    if n <= 1:
+        return "one"
+    return "lt" if npa < n else ("eq" if npa == n else "gt")
 
 
 def index_map_facts(call):
